@@ -110,3 +110,105 @@ func checkForward(fn *ssa.Function, target string) string {
 	}
 	return ""
 }
+
+// checkRangeSorted decides a "rangesorted" contract on the SSA form: the function calls (*sync.Map).Range exactly once,
+// with a function literal that does nothing but append to the named captured variable; the first use of that variable
+// after the call is the argument of a sort by a total order on the elements; nothing else in the function ranges over a
+// sync.Map. Returns "" or the reason.
+func checkRangeSorted(fn *ssa.Function, varName string) string {
+	if fn == nil {
+		return "function not found"
+	}
+	var cell *ssa.Alloc
+	for _, b := range fn.Blocks {
+		for _, in := range b.Instrs {
+			if a, ok := in.(*ssa.Alloc); ok && a.Comment == varName {
+				cell = a
+			}
+		}
+	}
+	if cell == nil {
+		return "no local named " + varName
+	}
+	var rng *ssa.Call
+	for _, b := range fn.Blocks {
+		for _, in := range b.Instrs {
+			c, ok := in.(*ssa.Call)
+			if !ok || c.Call.StaticCallee() == nil {
+				continue
+			}
+			if c.Call.StaticCallee().String() == "(*sync.Map).Range" {
+				if rng != nil {
+					return "more than one sync.Map.Range"
+				}
+				rng = c
+			}
+		}
+	}
+	if rng == nil {
+		return "no sync.Map.Range call"
+	}
+	mc, ok := rng.Call.Args[1].(*ssa.MakeClosure)
+	if !ok {
+		return "the Range callback is not a function literal"
+	}
+	// the literal: captures the variable, and every store in it goes to that variable
+	cf := mc.Fn.(*ssa.Function)
+	captured := false
+	for i, fv := range cf.FreeVars {
+		if mc.Bindings[i] == ssa.Value(cell) {
+			captured = true
+			for _, b := range cf.Blocks {
+				for _, in := range b.Instrs {
+					if st, ok := in.(*ssa.Store); ok {
+						if al, isLocal := st.Addr.(*ssa.Alloc); isLocal && !al.Heap {
+							continue // spill cells of the naive form
+						}
+						if ia, isIdx := st.Addr.(*ssa.IndexAddr); isIdx {
+							if al, ok := ia.X.(*ssa.Alloc); ok && al.Comment == "varargs" {
+								continue // the argument array of append(xs, v)
+							}
+						}
+						if st.Addr != ssa.Value(fv) {
+							return "the callback writes something other than " + varName + ": " + st.String()
+						}
+					}
+				}
+			}
+		} else if _, isAlloc := mc.Bindings[i].(*ssa.Alloc); isAlloc {
+			return "the callback captures another variable: " + fv.Name()
+		}
+	}
+	if !captured {
+		return "the callback does not capture " + varName
+	}
+	// first use after the Range call, in the same block (the handlers call Range at top level)
+	blk := rng.Block()
+	after := false
+	for _, in := range blk.Instrs {
+		if in == ssa.Instruction(rng) {
+			after = true
+			continue
+		}
+		if !after {
+			continue
+		}
+		if u, ok := in.(*ssa.UnOp); ok && u.X == ssa.Value(cell) {
+			refs := u.Referrers()
+			if refs == nil || len(*refs) == 0 {
+				return "the value read after Range is unused"
+			}
+			for _, r := range *refs {
+				call, isCall := r.(*ssa.Call)
+				if !isCall || call.Call.StaticCallee() == nil || !totalOrderSort(call.Call.StaticCallee().String()) {
+					return "the first use of " + varName + " after Range is not a sort by a total order on the elements (" + r.String() + ")"
+				}
+			}
+			return ""
+		}
+		if st, ok := in.(*ssa.Store); ok && st.Addr == ssa.Value(cell) {
+			return varName + " is overwritten after Range"
+		}
+	}
+	return varName + " is not used in the block of the Range call"
+}
